@@ -3,9 +3,13 @@ package spec
 import (
 	"fmt"
 	"go/ast"
+	"go/types"
+	"regexp"
+	"sort"
 	"strings"
 
 	"lndlint/internal/an"
+	"lndlint/internal/flow"
 )
 
 // short renders a site without the enclosing function id.
@@ -112,3 +116,165 @@ func callArg(s an.Site, i int) ast.Expr {
 }
 
 var kvUpdate = an.CalleeIs("kvdb.Update", "kvdb.Batch")
+
+// role describes the expected canonical argument forms (regular expressions,
+// matched against an.Func.Canon output) of one call site.
+type role struct {
+	Fn   string         // enclosing function id (prefix match, so closures $n are covered)
+	Name string         // role name for reports
+	Args map[int]string // arg index -> regexp
+	Nth  int            // if >0, the n-th (1-based) site of that function; 0 = any
+}
+
+// roleSites classifies every non-test call site of callee in pkgs by the
+// role table. Unclassified sites and unmet expectations fail.
+func roleSites(o *an.Obl, p *an.Prog, pkgs []string, callee string, roles []role, allowUnlisted map[string]string) {
+	perFn := map[string]int{}
+	used := make([]bool, len(roles))
+	for _, f := range p.Funcs(false, pkgs...) {
+		for _, s := range f.Calls(an.CalleeIs(callee), false) {
+			perFn[f.ID]++
+			args := f.ArgCanon(s)
+			matched := false
+			for ri, r := range roles {
+				if !(f.ID == r.Fn || strings.HasPrefix(f.ID, r.Fn+"$")) {
+					continue
+				}
+				if r.Nth > 0 && perFn[f.ID] != r.Nth {
+					continue
+				}
+				matched = true
+				used[ri] = true
+				o.Site("%s in role %q: %s", callee, r.Name, s.String())
+				idx := make([]int, 0, len(r.Args))
+				for i := range r.Args {
+					idx = append(idx, i)
+				}
+				sort.Ints(idx)
+				for _, i := range idx {
+					re := regexp.MustCompile(r.Args[i])
+					got := "<missing>"
+					if i < len(args) {
+						got = args[i]
+					}
+					if !re.MatchString(got) {
+						o.FailAt(fmt.Sprintf("%s@%s#role-%s-arg%d", callee, r.Fn, r.Name, i), s.Where(),
+							"%s: call of %s in role %q passes argument %d = %s, expected /%s/", s.String(), callee, r.Name, i, got, r.Args[i])
+					}
+				}
+				break
+			}
+			if !matched {
+				if _, ok := allowUnlisted[f.Root().ID]; ok {
+					o.Site("%s (tabled, out of scope: %s): %s", callee, allowUnlisted[f.Root().ID], s.String())
+					continue
+				}
+				o.FailAt(callee+"@"+f.ID+"#unclassified", s.Where(), "unclassified call site of %s: %s with arguments %v — a new construction site must be reviewed and added to the role table", callee, s.String(), args)
+			}
+		}
+	}
+	for ri, r := range roles {
+		if !used[ri] {
+			o.FailAt(callee+"@"+r.Fn+"#role-missing-"+r.Name, "", "no call of %s found for role %q in %s", callee, r.Name, r.Fn)
+		}
+	}
+}
+
+// selectorConsistent checks the idiom
+//
+//	v := <local>; if party.IsRemote() { v = <remote> }   (or if/else, or the mirrored default)
+//
+// at a use site: there is no path on which party is Remote and the
+// assignment in effect at the site is the local one, and vice versa.
+func selectorConsistent(o *an.Obl, f *an.Func, site an.Site, v ast.Expr, party an.Term, local, remote an.Term, what string) {
+	id, ok := an.Strip(f.Info(), v).(*ast.Ident)
+	if !ok {
+		o.FailAt(constructOf(f, site)+"#"+what+"-not-a-variable", site.Where(), "%s argument is not a variable: %s", what, an.Text(v))
+		return
+	}
+	obj := f.Info().Uses[id]
+	root := f
+	for root.Parent != nil && !definesObj(root, obj) {
+		root = root.Parent
+	}
+	var locals, remotes, others []an.Site
+	objTerm := func(fn *an.Func, e ast.Expr) bool {
+		i, ok := e.(*ast.Ident)
+		return ok && (fn.Info().Uses[i] == obj || fn.Info().Defs[i] == obj)
+	}
+	for _, as := range root.Assigns(objTerm, false) {
+		rhs := rhsFor(root, as, obj)
+		switch {
+		case rhs != nil && an.Match(root, local, rhs):
+			locals = append(locals, as)
+		case rhs != nil && an.Match(root, remote, rhs):
+			remotes = append(remotes, as)
+		default:
+			others = append(others, as)
+		}
+	}
+	if len(locals) == 0 || len(remotes) == 0 || len(others) > 0 {
+		o.FailAt(constructOf(f, site)+"#"+what+"-selection", site.Where(), "%s: cannot classify the assignments of %s (local=%d remote=%d other=%d)", what, id.Name, len(locals), len(remotes), len(others))
+		return
+	}
+	g := root.Graph()
+	isLocal := an.AnyOf("party is Local",
+		an.Truth(an.CallNamed("IsLocal", party), true, ""), an.Truth(an.CallNamed("IsRemote", party), false, ""),
+		an.Cmp(party, an.EQ, an.PkgVar("lntypes", "Local"), ""), an.Cmp(party, an.NE, an.PkgVar("lntypes", "Remote"), ""))
+	isRemote := an.AnyOf("party is Remote",
+		an.Truth(an.CallNamed("IsRemote", party), true, ""), an.Truth(an.CallNamed("IsLocal", party), false, ""),
+		an.Cmp(party, an.EQ, an.PkgVar("lntypes", "Remote"), ""), an.Cmp(party, an.NE, an.PkgVar("lntypes", "Local"), ""))
+	target := site.V
+	if root != f {
+		// the use is inside a closure: the selection must be complete
+		// before the closure is created; use the statement containing it
+		target = root.Graph().Containing(f.Lit, true)
+	}
+	check := func(from []an.Site, stopAt []an.Site, cutFact an.Fact, desc string) {
+		stop := map[*flow.Vertex]bool{}
+		for _, s := range stopAt {
+			stop[s.V] = true
+		}
+		cut := root.EdgesOf(cutFact)
+		fromEntry := g.Reach(g.Entry, cut, nil)
+		for _, a := range from {
+			if !fromEntry[a.V] {
+				continue // the assignment itself is only reached under the opposite party
+			}
+			reach := g.Reach(a.V, cut, stop)
+			if target != nil && reach[target] && !stop[target] {
+				o.FailAt(constructOf(f, site)+"#"+what+"-"+desc, a.Where(), "%s: the value assigned at %s can reach %s on a path where the %s", what, a.String(), site.String(), desc)
+			}
+		}
+	}
+	o.Site("%s: %s selected by party at %s (local defs %d, remote defs %d)", what, id.Name, site.String(), len(locals), len(remotes))
+	// local value in effect while party is Remote: forbid paths that avoid
+	// every "party is Local" edge
+	check(locals, remotes, isLocal, "party is Remote")
+	check(remotes, locals, isRemote, "party is Local")
+}
+
+func definesObj(f *an.Func, obj types.Object) bool {
+	found := false
+	ast.Inspect(f.Body, func(n ast.Node) bool {
+		if id, ok := n.(*ast.Ident); ok && f.Info().Defs[id] == obj {
+			found = true
+		}
+		return !found
+	})
+	return found
+}
+
+// rhsFor returns the expression assigned to obj by the assignment site.
+func rhsFor(f *an.Func, s an.Site, obj types.Object) ast.Expr {
+	as, ok := s.Node.(*ast.AssignStmt)
+	if !ok || len(as.Lhs) != len(as.Rhs) {
+		return nil
+	}
+	for i, l := range as.Lhs {
+		if id, ok := ast.Unparen(l).(*ast.Ident); ok && (f.Info().Uses[id] == obj || f.Info().Defs[id] == obj) {
+			return as.Rhs[i]
+		}
+	}
+	return nil
+}
